@@ -95,6 +95,23 @@ def dec_move(fen, mv):
     return (f, t, promo)
 
 
+PG_PIECE = {"p": 0, "P": 1, "n": 2, "N": 3, "b": 4, "B": 5, "r": 6, "R": 7, "q": 8, "Q": 9, "k": 10, "K": 11}
+
+
+def pg_key(fen, randoms):
+    """polyglot key of a FEN whose castling and en-passant fields are already normalised the way the engine keeps them
+    (castling right only with king and rook at home; en-passant square only when a capture is possible)"""
+    parts = fen.split()
+    k = 0
+    for sq, c in fen_board(fen).items():
+        k ^= randoms[64 * PG_PIECE[c] + sq]
+    for ch, i in (("K", 0), ("Q", 1), ("k", 2), ("q", 3)):
+        if ch in parts[2]: k ^= randoms[768 + i]
+    if parts[3] != "-": k ^= randoms[772 + ord(parts[3][0]) - 97]
+    if parts[1] == "w": k ^= randoms[780]
+    return k
+
+
 def triple_of_uci(fen, uci):
     wtm = fen.split()[1] == "w"
     pr = PROMO_CODE[uci[4]] + (0 if wtm else 6) if len(uci) > 4 else 0
@@ -130,12 +147,13 @@ class PosInfo:
         self.fen, self.key, self.legal = fen, key, legal
 
 
-def position_pool(ctx, quick):
+def position_pool(ctx, quick, randoms):
     """FENs with their polyglot key (implementation and model must agree) and their legal moves
     (MoveGen and the Lean specification must agree)."""
     r = ctx.rng
     fens = [START] + chessgen.SEED_FENS
     fens += chessgen.games(ctx, 25 if quick else 400, 60)
+    normalised = set(fens[len(chessgen.SEED_FENS) + 1:]) | {START}     # written by TextIO::toFEN after fixupEPSquare
     fens += chessgen.synthetic(r, 250 if quick else 4000)
     fens += [chessgen.motif_castle(r) for _ in range(120 if quick else 1500)]
     fens += [chessgen.motif_promo(r) for _ in range(40 if quick else 500)]
@@ -157,6 +175,12 @@ def position_pool(ctx, quick):
         return pool
     for i, f in enumerate(fens):
         lg, ky = out2[2 * i], out1[2 * i + 1]
+        if ky.startswith("0x") and (f in normalised or (f.split()[3] == "-" and f.split()[2] == "-")) and len(randoms) == 781:
+            ctx.count()
+            if pg_key(f, randoms) != int(ky, 16):
+                ctx.violation(f"PolyglotBook::getHashKey({f}) = {ky}, the polyglot format gives {hex(pg_key(f, randoms))}",
+                              {"kind": "property-predicate", "tie": "keys-and-legal-lists", "input": [f"pgbook key {f}"], "impl_output": ky})
+                return []
         if lg.startswith("err") or lg == "bad-op" or not ky.startswith("0x") or out1[2 * i] != lg or out2[2 * i + 1] != ky:
             continue
         moves = lg.split()[1:]
@@ -522,6 +546,7 @@ def run_sessions(ctx, name, sessions, u64, variant="plain", model=True, nproc=4,
             nviol += 1
             continue
         for s, (a, b) in zip(chunk, spans):
+            if nviol >= 8: break          # enough failing inputs; the rest would be repetitions
             for l in lines[a + 1:b]: ctx.distinct(l if len(l) < 200 else hash(l))
             ctx.distinct(("book", hash(s.bytes_()) if not s.special else s.special))
             bad = judge_session(ctx, s, lines[a:b], out1[a:b], u64, variant)
@@ -732,7 +757,7 @@ def run(ctx):
                       {"kind": "correspondence", "tie": "hash-constants", "theorem_scope": "Book.getHashKey", "constants_in_source": len(randoms)}, no_input=True)
     vlib.cxx_build("plain", ("vharness",))
     # 2. positions, keys, legal lists
-    pool = position_pool(ctx, quick)
+    pool = position_pool(ctx, quick, randoms)
     if len(pool) < 50:
         ctx.violation("position pool could not be built", {"kind": "generator"}, no_input=True); return
     # 3. codecs
